@@ -3,8 +3,10 @@
 (*                                                                         *)
 (*  Mirrors, statement by statement,                                       *)
 (*    routines/laplacian_eigenmaps.hpp   compute_laplacian                 *)
-(*    methods/laplacian_eigenmaps.hpp    embed()  (which columns of the    *)
-(*                                       generalised solver are returned)  *)
+(*    methods/laplacian_eigenmaps.hpp    embed()  (neighbour search oracle *)
+(*                                       -> compute_laplacian; which       *)
+(*                                       columns of the generalised solver *)
+(*                                       are returned)                     *)
 (*    routines/generalized_eigendecomposition.hpp  column selection, via   *)
 (*                                       the GENERATED table gen/EigSelect *)
 (*                                       (agent c05's translator t_eig.py) *)
@@ -125,6 +127,31 @@ Section LapModel.
   (* precondition of setFromTriplets: every row / column index inside the n x n matrix *)
   Definition triplets_in_range (n : nat) (ts : list triplet) : bool :=
     forallb (fun t : triplet => let '(tr, tc, _) := t in Nat.ltb tr n && Nat.ltb tc n) ts.
+
+  (* ---- methods/laplacian_eigenmaps.hpp embed(), its first two statements ----
+       Neighbors neighbors = find_neighbors_with(plain_distance);
+       Laplacian laplacian = compute_laplacian(begin, end, neighbors, distance, width);
+     The neighbour search is an ORACLE `search : nat -> list (list nat)` applied to the requested
+     parameters[num_neighbors] (its own contract is properties C02/C03; with check_connectivity it
+     doubles k until the graph is strongly connected, so the lists it returns may be LONGER than
+     requested).  The requested count is NOT an argument of compute_laplacian: the routine reads the
+     count from the lists it is handed (neighbors[0].size(), see compute_laplacian above). *)
+  Definition le_method_laplacian (search : nat -> list (list nat)) (kreq n : nat)
+    : lres (list triplet * list F) :=
+    compute_laplacian n (search kreq).
+
+  (* regression variant (seeded change C09_1, NOT the shipped code): the neighbour count is an explicit
+     argument of the routine and the method passes parameters[num_neighbors] *)
+  Definition compute_laplacian_k (k n : nat) (nbrs : list (list nat))
+    : lres (list triplet * list F) :=
+    match fold_left (row_step k nbrs) (seq 0 n) (LOk (mk_lstate (repeat 0 n) [])) with
+    | LOOB s a b => LOOB s a b
+    | LOk st => LOk (st_T st ++ diag_triplets n (st_D st), st_D st)
+    end.
+
+  Definition le_method_laplacian_reqk (search : nat -> list (list nat)) (kreq n : nat)
+    : lres (list triplet * list F) :=
+    compute_laplacian_k kreq n (search kreq).
 
   (* what the harness observes: the dense n x n table of the sparse matrix and D *)
   Definition laplacian_dense (n : nat) (nbrs : list (list nat))
